@@ -32,9 +32,13 @@ Definition truth (d : doc) : json -> bool := match d with Doc t _ => t end.
 Definition subs (d : doc) : str -> list doc := match d with Doc _ s => s end.
 
 (* the declared nested paths, as the property means them: every ancestor of a (flattened) declared
-   nested path; a dot-less declared path is its own parent.  (The code only knows the parents: F8.) *)
-Definition nested_paths (cfg : es_config) : list str := flat_map ancestors (declared_nested cfg).
-Definition nested_paths_code (cfg : es_config) : list str := map parent_path (declared_nested cfg).
+   nested path; a dot-less declared path is its own parent.  (The code only knows the parents: F8.)
+   The empty path that an empty specification flattens to is not a nested field. *)
+Definition nonempty_path (p : str) : bool := match p with [] => false | _ => true end.
+Definition nested_paths (cfg : es_config) : list str :=
+  filter nonempty_path (flat_map ancestors (declared_nested cfg)).
+Definition nested_paths_code (cfg : es_config) : list str :=
+  filter nonempty_path (map parent_path (declared_nested cfg)).
 
 (* a nested level is a list of path components; [] is the root *)
 Definition level := list str.
@@ -292,6 +296,11 @@ Fixpoint item_kind (cfg : es_config) (t : item) : ikind :=
   | _ => IOther
   end.
 
+(* a field name with a non-empty first component (the code takes the fields "" and ".x" for fields
+   under the nested path "" that an EMPTY nested_fields specification flattens to) *)
+Definition plain_field_name (n : str) : bool :=
+  match n with [] => false | c :: _ => negb (N.eqb c c_dot) end.
+
 (* not F6: every operand of a BoolOperation is +x / -x / NOT x, or something whose translation is
    neither an EMust nor an EMustNot item, and is not itself a BoolOperation *)
 Definition bool_operand_ok (cfg : es_config) (c : item) : bool :=
@@ -301,14 +310,16 @@ Definition bool_operand_ok (cfg : es_config) (c : item) : bool :=
   | _ => match item_kind cfg c with IOther => true | _ => false end
   end.
 
-Fixpoint bool_operands_plain (cfg : es_config) (t : item) : bool :=
+(* plain_tree: no BoolOperation has an operand of the F6 shape, and every field name is plain *)
+Fixpoint plain_tree (cfg : es_config) (t : item) : bool :=
   match t with
   | Term _ _ _ | NoneItem _ => true
-  | Range _ lo hi _ _ => bool_operands_plain cfg lo && bool_operands_plain cfg hi
-  | SearchField _ _ e | Grp _ _ e | Boost _ e _ _ => bool_operands_plain cfg e
-  | Fuzzy _ x _ _ | Proximity _ x _ _ => bool_operands_plain cfg x
-  | Unary _ _ a | ORange _ _ a _ => bool_operands_plain cfg a
+  | Range _ lo hi _ _ => plain_tree cfg lo && plain_tree cfg hi
+  | SearchField _ n e => plain_field_name n && plain_tree cfg e
+  | Grp _ _ e | Boost _ e _ _ => plain_tree cfg e
+  | Fuzzy _ x _ _ | Proximity _ x _ _ => plain_tree cfg x
+  | Unary _ _ a | ORange _ _ a _ => plain_tree cfg a
   | Op k _ ops =>
-      forallb (bool_operands_plain cfg) ops &&
+      forallb (plain_tree cfg) ops &&
       match k with KBool => forallb (bool_operand_ok cfg) ops | _ => true end
   end.
